@@ -883,3 +883,30 @@ Proof.
   rewrite <- (bsplit_join_pairs (p2 :: t2)) by (discriminate || assumption).
   rewrite Hj. reflexivity.
 Qed.
+
+(* ================================================================================================ *)
+(** * Boolean checkers used by the examples in props/C11.v and props/C12.v *)
+
+Lemma spec_pairs_b_sound : forall ps,
+  all_b (fun p => key_ok (fst p) && val_ok (snd p)) ps = true -> Forall spec_pair ps.
+Proof.
+  intros ps H. apply all_b_Forall in H. revert H. apply Forall_impl. intros p Hp.
+  apply andb_true_iff in Hp. destruct Hp. split; [apply spec_key_iff|apply spec_val_iff]; assumption.
+Qed.
+
+Fixpoint nodup_b (l : list bytes) : bool :=
+  match l with [] => true | x :: t => negb (mem beq x t) && nodup_b t end.
+
+Lemma nodup_b_sound : forall l, nodup_b l = true -> NoDup l.
+Proof.
+  induction l as [|x t IH]; intros H; [constructor|]. cbn [nodup_b] in H.
+  apply andb_true_iff in H. destruct H as [H1 H2]. constructor; [|apply IH; assumption].
+  intros Hin. apply (in_ids_In x t) in Hin. unfold in_ids in Hin. rewrite Hin in H1. discriminate.
+Qed.
+
+Lemma disjoint_b_sound : forall l1 l2, all_b (fun k => negb (mem beq k l2)) l1 = true ->
+  forall k, In k l1 -> ~ In k l2.
+Proof.
+  intros l1 l2 H k Hk Hin. apply all_b_Forall in H. rewrite Forall_forall in H. apply H in Hk.
+  apply (in_ids_In k l2) in Hin. unfold in_ids in Hin. rewrite Hin in Hk. discriminate.
+Qed.
